@@ -1,5 +1,6 @@
 import Driver.XmlD
 import ZeepModel.Xsd.Parse
+import ZeepModel.Xsd.Serialize
 namespace Driver
 open Lean Zeep Zeep.Xsd
 
@@ -66,6 +67,22 @@ def xsdParse (j : Json) : R Json := do
   let gas := (fldD j "gas" (Json.num 1000000)).getNat?.toOption.getD 1000000
   pure <| match parseRoot gas m ty node with
   | .ok r => Json.mkObj [("item", jItem r.val), ("calls", jNat r.calls)]
+  | .error e => Json.mkObj [("error", Json.str (errName e))]
+
+
+/-- decode, then write the reference serialisation of the decoded instance -/
+def xsdSerialize (j : Json) : R Json := do
+  let m := if (← str (← fld j "mode")) == "lax" then Mode.lax else Mode.strict
+  let ty ← parseTy (← fld j "ty")
+  let node ← parseNode (← fld j "node")
+  pure <| match parseRoot 1000000 m ty node with
+  | .ok r =>
+    let out := serItem node.tag ty r.val
+    -- decoding the reference serialisation again gives the same serialisation (idempotence)
+    let again := match parseRoot 1000000 m ty out with
+      | .ok r2 => some (serItem node.tag ty r2.val)
+      | .error _ => none
+    Json.mkObj [("node", jNode out), ("again", match again with | some n => jNode n | none => Json.null)]
   | .error e => Json.mkObj [("error", Json.str (errName e))]
 
 end Driver
